@@ -161,7 +161,9 @@ class SSHConfig:
             elif key == "proxycommand" and value.lower() == "none":
                 # Store 'none' as None - not as a string implying that the
                 # proxycommand is the literal shell command "none"!
-                context["config"][key] = None
+                # (First obtained value wins, as for every other keyword.)
+                if key not in context["config"]:
+                    context["config"][key] = None
             # All other keywords get stored, directly or via append
             else:
                 if value.startswith('"') and value.endswith('"'):
